@@ -41,7 +41,7 @@ func init() {
 		PropCheck: "prop_bad_ids",
 		Gen:       c11Gen,
 		Run:       c11Run,
-		Rule:      "both curves x {SHA2-256, SHA3-256, SHA2-384, SHA3-384, Keccak-256, KMAC128/32, KMAC128/64}: signatures from Sign, the (r,n-s) twin, single-bit flips, r/s swapped, r or s in {0,n,n+1,2^256-1}, lengths 0..130, other message/key/curve, nil and short hashers; public-key decoders on crafted strings (all 256 prefix bytes, x >= p, off-curve, all-zero, lengths); key objects from every constructor and then used (public key decoded from its raw / compressed encoding, private key from GeneratePrivateKey); private keys 1, 2, 3, n-1, n-2, 2^128, 2^255 and keys with 1-3 leading zero bytes; signed with one hasher and verified with another; crafted signatures for which u1*G + u2*Q is the point at infinity (rejected) or a doubling (valid); lengths that are 64 only modulo 256 / 2^16 and a nil signature; empty messages; hashers of 33, 100 and 200 bytes, fixed-output hashers of 31 and 0 bytes; digests of chosen shape through Sign; every Verify is called twice (same answer, arguments unmodified) and SignatureFormatCheck is called with the unsupported algorithms (documented invalid-input error); non-trivial if the implementation returned a verdict or an error; distinct by case description",
+		Rule:      "both curves x {SHA2-256, SHA3-256, SHA2-384, SHA3-384, Keccak-256, KMAC128/32, KMAC128/64}: signatures from Sign, the (r,n-s) twin, single-bit flips, r/s swapped, r or s in {0,n,n+1,2^256-1}, lengths 0..130, other message/key/curve, nil and short hashers; public-key decoders on crafted strings (all 256 prefix bytes, x >= p, off-curve, all-zero, lengths); key objects from every constructor and then used (public key decoded from its raw / compressed encoding, private key from GeneratePrivateKey); private keys 1, 2, 3, n-1, n-2, 2^128, 2^255 and keys with 1-3 leading zero bytes; signed with one hasher and verified with another; crafted signatures for which u1*G + u2*Q is the point at infinity (rejected) or a doubling (valid); lengths that are 64 only modulo 256 / 2^16 and a nil signature; empty messages; hashers of 33, 100 and 200 bytes, fixed-output hashers of 31 and 0 bytes; digests of chosen shape through Sign; every Verify is called twice (same answer, arguments unmodified) and SignatureFormatCheck is called with the unsupported algorithms (documented invalid-input error); non-trivial if the implementation returned a verdict or an error; distinct by case description; hashers handed to Sign / Verify hold written bytes or a finished computation in every other case; zero bytes inserted before r, between r and s, around both, after s; decoder inputs overwritten after decoding",
 		Shard:     c11Shard,
 	})
 }
